@@ -429,7 +429,7 @@ def run_engine(ctx, oracle_ids, quick_random=6000, thorough_random=80000, exhaus
         depth = ctx.rng.choice([-1, 0, 1, 1, 2, 2, 3, 4])
         cases.append((tbl, depth, ["", text, "", 0, len(text), []]))
     # registries whose output is always decodable again: termination is by the depth budget alone
-    for depth in range(-3, 13):
+    for depth in list(range(-3, 17)) + [-3, 0, 11, 12, 13, 16, 25]:
         chain = [(b"xyzzy", [hit("dec2", 1, 3, b"xyzzy", 0), hit("ctx", 0, 4, b"xyzzy", 1), hit("ctx", 3, 5, b"xyzzy", 2)])]
         cases.append((chain, depth, ["", b"xyzzy", "", 0, 5, []]))
         chain2 = [(b"xyzzy", [hit("ctx", 0, 5, b"xyzzy", 1), hit("dec2", 2, 4, b"xyzzy", 0)])]
@@ -444,6 +444,53 @@ def run_engine(ctx, oracle_ids, quick_random=6000, thorough_random=80000, exhaus
         kids = [["pre", text[:2], "", 0, 2, []], ["pre2", b"xyzzy", "o", 1, 3, []]]
         cases.append((tbl, ctx.rng.choice([1, 2, 3]), ["t", text, "", 0, len(text), kids]))
     run_cases(ctx, cases, oracles)
+    # the same engine comparison + oracles on tables recorded from the shipped registry
+    import corpus_gen
+    ins = [(d, ctx.rng.choice([10, 10, 1, 2, 3])) for d in corpus_gen.gen_inputs(ctx.rng, ctx.budget(120, 1500)) + [corpus_gen.plain_nested(ctx.rng) for _ in range(ctx.budget(30, 300))] if len(d) < 1500]
+    ins += list(getattr(ctx, "diff_inputs", []))
+    run_cases(ctx, recorded_cases(ctx, ins), oracles)
+
+
+def recorded_cases(ctx, inputs):
+    """registry tables RECORDED from scans with the shipped registry: for every value the scan searched, the hits every shipped decoder reported on it (registry order).
+    The engine (implementation and model) is then run on that table: real hit shapes (decoder-supplied children, labels, case changes, ties) instead of synthetic ones."""
+    from multidecoder.multidecoder import Multidecoder
+    from scan_common import RecordingRegistry, ScanTimeout, with_timeout
+    reg = RecordingRegistry()
+    md = Multidecoder(decoders=reg.decoders)
+    cases = []
+    for data, depth in inputs:
+        if depth is None:
+            depth = 10
+        del reg.calls[:]
+        try:
+            with_timeout(lambda: md.scan(data, depth), 20)
+        except ScanTimeout:
+            ctx.count("recorded:timeout")
+            continue
+        except Exception:  # noqa: BLE001   (C01's business)
+            ctx.count("recorded:raise")
+            continue
+        tbl, order = {}, []
+        seen_call = set()
+        for name, value, hits in reg.calls:
+            if (name, value) in seen_call:      # the same value searched again: keep the first answer of each decoder
+                continue
+            seen_call.add((name, value))
+            if value not in tbl:
+                tbl[value] = []
+                order.append(value)
+            tbl[value] += hits
+        table = [(v, tbl[v]) for v in order if tbl[v]]
+        if len(table) > 60 or sum(len(h) for _, h in table) > 600:
+            ctx.count("recorded:too_large")
+            continue
+        if not table_wf(table):
+            ctx.count("recorded:not_wf")        # inverted / out-of-bounds reported spans (known finding F6): C03's whole-scan part reports them
+            continue
+        ctx.count("recorded:wf")
+        cases.append((table, depth, ["", data, "", 0, len(data), []]))
+    return cases
 
 
 def run_cases(ctx, cases, oracles):
@@ -454,7 +501,14 @@ def run_cases(ctx, cases, oracles):
     ctx.probe_counts["scan_node"] = ctx.probe_counts.get("scan_node", 0) + len(args)
     for (tbl, depth, node), a, m in zip(cases, args, model_out):
         wf = table_wf(tbl)
-        out, rec, res = impl_scan_node(tbl, depth, node, timeout=0.05 if not wf else 5)
+        rootlike = node[0] == "" and node[2] == "" and node[3] == 0 and node[4] == len(node[1]) and not node[5]
+        ctx._rootlike = getattr(ctx, "_rootlike", 0) + (1 if rootlike else 0)
+        if rootlike and (ctx._rootlike % 2 == 0 or depth > 10):
+            # scan(data, k) is scan_node on the root node: the public entry point must not treat the budget differently
+            out, rec, res = impl_scan(tbl, depth, node[1], timeout=0.05 if not wf else 5)
+            ctx.count("via_scan")
+        else:
+            out, rec, res = impl_scan_node(tbl, depth, node, timeout=0.05 if not wf else 5)
         ctx.evals += 1
         key = hashlib.sha256(enc(a).encode()).digest()[:10]
         ctx.distinct.add(key)
